@@ -140,6 +140,7 @@ type FnCtx struct {
 	masks         map[string]string // term -> shift term s, for (2^s - 1)
 	pow2s         map[string]string // term -> s, for 2^s
 	verAlloc      map[string]string // heap-array version -> allocation mark when it was created
+	anchorSeen    map[string]bool   // anchors (call sites, loop heads/latches) reached in the top frame
 	boxes         map[string]Val
 	nopanic       bool
 	sweep         bool // zero-annotation sweep mode: loops without invariants allowed
